@@ -210,4 +210,5 @@ func specIncentives() {
 		"updateGaugePostDistribute", "skipSpamGaugeDistribute", "Sign", "NewIntFromUint64", "Len")
 	pinOps("Incentives", k, "Keeper.updateGaugePostDistribute")
 	pinOps("Incentives", k, "Keeper.skipSpamGaugeDistribute", "Len")
+	pinOps("Incentives", k, "Keeper.checkFinishDistribution", "GetGaugeByID", "moveActiveGaugeToFinishedGauge")
 }
